@@ -64,8 +64,19 @@ pub fn find_leak(log: &[Freed], secret: &[u8], window: usize) -> Option<(usize, 
         }
         for s in 0..=(secret.len() - window) {
             let w = &secret[s..s + window];
-            if w.iter().all(|x| *x == 0) {
-                continue; // all-zero windows are not evidence of anything
+            // low-entropy windows (zeros, 01 00 00 .., ff ff ..) also occur in public data such
+            // as the limbs of field-element constants: only windows with at least five
+            // distinct byte values count as evidence
+            let mut seen = [false; 256];
+            let mut distinct = 0;
+            for x in w {
+                if !seen[*x as usize] {
+                    seen[*x as usize] = true;
+                    distinct += 1;
+                }
+            }
+            if distinct < 5 {
+                continue;
             }
             if b.content.windows(window).any(|c| c == w) {
                 return Some((bi, s));
